@@ -44,7 +44,7 @@ class StreamInteractions(Contract):
     def loop_specs(self):
         def outer(L):
             g = L.g['self']
-            ts = L.fr.env['timestamps']
+            ts = L.iterable                  # the sorted instants
             k = L.k
             ycnt, yany, ylast = L.env['$ycnt'].z, L.env['$yany'].z, L.env['$ylast'].z
             q = z3.Int('q?st')
@@ -56,8 +56,7 @@ class StreamInteractions(Contract):
 
         def inner(L):
             g = L.g['self']
-            ts = L.fr.env['timestamps']
-            t = L.env['t'].z
+            t = L.otv(0).z                   # the instant the enclosing loop is visiting
             ycnt, yany, ylast = L.env['$ycnt'].z, L.env['$yany'].z, L.env['$ylast'].z
             y0 = L.env0['$ycnt'].z
             q = z3.Int('q?si')
@@ -65,7 +64,7 @@ class StreamInteractions(Contract):
             return [('below_t_as_before_at_t_the_visited_keys',
                      FA([q, key], ycnt[q][key] == z3.If(q == t, b2i(z3.And(L.vis(key), self.logged(g, q, key))), y0[q][key]), [ycnt[q][key]])),
                     ('last_yield_not_after_t', z3.Implies(yany, ylast <= t))]
-        return {'seq:t': LoopSpec(outer, modifies={}, tags=('C05',)), 'bag:e': LoopSpec(inner, modifies={}, tags=('C05',))}
+        return {'seq/1': LoopSpec(outer, modifies={}, tags=('C05',)), 'bag/1': LoopSpec(inner, modifies={}, tags=('C05',))}
 
     def finish(self, ctx, c, outcome):
         T = ('C05',)
